@@ -531,15 +531,16 @@ def explore_threads(case):
 
         def mk(dt_, a_, w_, G=G, x0=x0):
             def call():
-                with contextlib.redirect_stdout(io.StringIO()):
-                    l_ = lib.lie.se23.elem(ca.DM(np.concatenate([np.zeros(3), a_, w_])))
-                    r_ = lib.lie.se23.elem(ca.DM([0, 0, 0, 0, 0, -9.8, 0, 0, 0.0]))
-                    Bm_ = ca.sparsify(ca.SX([[0, 1], [0, 0]]))
-                    return numapi.ev(G.exp_mixed(G.elem(ca.DM(x0)), l_ * dt_, r_ * dt_, Bm_ * dt_).param).tobytes()
+                l_ = lib.lie.se23.elem(ca.DM(np.concatenate([np.zeros(3), a_, w_])))
+                r_ = lib.lie.se23.elem(ca.DM([0, 0, 0, 0, 0, -9.8, 0, 0, 0.0]))
+                Bm_ = ca.sparsify(ca.SX([[0, 1], [0, 0]]))
+                return numapi.ev(G.exp_mixed(G.elem(ca.DM(x0)), l_ * dt_, r_ * dt_, Bm_ * dt_).param).tobytes()
             return call
         fa, fb = mk(0.01, A_MENU[2], W_MENU[2]), mk(0.5, A_MENU[1], W_MENU[3])
         alone = [fa(), fb()]
         nrun = 0
+        _quiet = contextlib.redirect_stdout(io.StringIO())  # one redirection around the exploration, none inside the threads
+        _quiet.__enter__()
         for choices, results, npts, capped in threads.explore([fa, fb], ("cyecca/lie/", "cyecca/symbolic.py"), 1 if case["tier"] == "quick" else 2, max_runs=3000 if case["tier"] == "quick" else 30000):
             if capped:
                 res.counters["thread_schedules_capped"] += 1
@@ -554,6 +555,7 @@ def explore_threads(case):
                 res.fail(site=config, clause="python_api_step_independent_of_a_concurrent_step", cls="threads", detail=dict(thread=bad[0], schedule=choices,
                          outcome=(results[bad[0]][1] if results[bad[0]] and results[bad[0]][0] != "ok" else "differs from the call alone")), sub="threads", case=case)
                 break
+        _quiet.__exit__(None, None, None)
     res.samples.append(dict(threads=case["config"]))
     return res
 
